@@ -485,6 +485,11 @@ def main():
             jobs.append(canary_job(P, alpha, c, 0, c.name[:60]))
         else:
             jobs.append(canary_job(P, alpha, c, max(1, n - 2) if q else n - 1, c.name[:60]))
+    mix = {"?S": ["x :", "T :", "case 1 :", "default :", "if ( x )", "while ( x )", ""],
+           "?D": ["extern y ( ) ;", "static x ;", "T x ;", "int T ;", "typedef int x ;", "x = 1 ;", ";", "{ }", "T * x ;", "struct y { T T ; } x ;", "enum { T } ;", "register y ;", "auto x , T ;", "T ( T ) ;", "sizeof ( T ) ;"]}
+    fn = ["typedef", "int", "T", ";", "void", "y", "(", "void", ")", "{"]
+    jobs.append(canary_job(P, alpha, PatCtx("mix:block", fn, "?S ?S ?D ?D", ["}"], mix), 0, "mix:block"))
+    jobs.append(canary_job(P, alpha, PatCtx("mix:file", ["typedef", "int", "T", ";"], "?D ?D ?D", [], mix), 0, "mix:file"))
     report.bounds["canaries"] = CANARIES
     first = True
     for job in jobs:
